@@ -1,0 +1,12 @@
+//go:build verif
+
+package hevc
+
+// Contracts for pkg/hevc. Checked by /verif/govc.
+
+// C05: the record parser indexes the fixed part of an HEVCDecoderConfigurationRecord (offsets 27..32 after
+// the 5-byte tag header); both entry points must have refused shorter payloads.
+//@ func parseVpsSpsPpsFromRecord
+//@   props C05
+//@   requires len(payload) >= 33
+//@ end
